@@ -12,6 +12,7 @@ ASSUMPTIONS = ['shared inputs are read-only (certificates, keys, version constan
 RULE = ('(a) permutations: for each serializer (signed exchange headers/file/signed message, bundle, integrity block attributes, structured-header parameters, signed-subset hashes) every insertion order of the map-typed component '
         '(all permutations up to 4 entries, sampled beyond) through both the real code and the model: all outputs must be byte-identical to each other and to the model; '
         '(b) histories/schedules: c18.conc ops in a -race build: N goroutines (8 quick / 64 thorough) x R repetitions over shared parsed inputs, randomised start order, every output compared with a reference run, race detector report = failure; '
+        'c18.concsign: the same for SIGNING with real P-256 / P-384 keys and the signers\' default random source (signed exchange b1/b3, bundle signatures b1/b2, the signing algorithm itself): own Exchange / Bundle / Signer per call, every signature verified, no repeated signature; '
         'non-trivial = permuted or concurrent op')
 EXHAUSTIVE = {}
 
@@ -26,6 +27,28 @@ def classify(op, m):
 def perms(rng, items, cap=24):
     ps = list(itertools.permutations(items)) if len(items) <= 4 else [tuple(rng.sample(items, len(items))) for _ in range(cap)]
     return ps[:cap]
+
+
+def conc_sign_ops(rng, w, G, R, H):
+    """SIGNING at overlapping times on the default path: real ECDSA keys (P-256 and P-384), Signer.Algorithm nil (random source = the
+    library's default), one Exchange / Bundle / Signer per call, only certificate, key and URLs shared. Results (signature bytes taken out)
+    must equal the reference run's, every signature must verify, no signature may repeat; race detector report = failure."""
+    ops = []
+    ec = [k for k in w.keys if k['curve'] in ('p256', 'p384')]
+    seen, keys = set(), []
+    for k in ec:
+        if k['curve'] not in seen:
+            seen.add(k['curve']); keys.append(k)
+    for k in keys:
+        for ver in ('b3', 'b1'):
+            e = ex(ver, b'https://example.com/', b'GET', [], 200, H[:3], b'', b'payload ' * 40)
+            ops.append(f'c18.concsign {G} {R} {rng.randrange(10**6)} sxg {exs(e)} 16 {k["cert"]} {k["key"]} {hexs(b"https://example.com/cert.cbor")} {hexs(b"https://example.com/v")} 1517418800 1517422400')
+        for bv in ('b2', 'b1'):
+            bb = bundle(bv, b'https://example.com/', None, None, [exch(b'https://example.com/', 200, H[:2], b'body'), exch(b'https://example.com/2', 200, H[:1], b'two')])
+            ops.append(f'c18.concsign {G} {R} {rng.randrange(10**6)} bsig {bb} 16 {k["cert"]}:{hexs(b"ocsp")}:nil {k["key"]} {hexs(b"https://example.com/validity")} 1517418800 3600')
+        ops.append(f'c18.concsign {G} {R} {rng.randrange(10**6)} alg {k["key"]} {hexs(b"message to be signed")}')
+        ops.append(f'c18.concsign {G} {R} {rng.randrange(10**6)} alg {k["key"]} -')
+    return ops
 
 
 def run(ctx):
@@ -178,6 +201,7 @@ def run(ctx):
             f'sh 6c6162;{";".join(params)}', f'subset {hexs(b"https://example.com/v")}|{"bb" * 32}|5|10|{",".join(subs)}',
             f'mice 03 16 {hexs(rbytes(rng, 100))}', f'mice 02 7 {hexs(rbytes(rng, 50))}']
     ops = [f'c18.conc {G} {R} {rng.randrange(10**6)} {c}' for c in conc for _ in range(2 if not thorough else 6)]
+    ops += conc_sign_ops(rng, w, G, R, H)
     res, race = ctx.go_race(ops)
     for op, r in zip(ops, res):
         ctx.records.append((op, (r or 'crash').split(' ')[0], 'same'))
